@@ -7,7 +7,8 @@
  * model variant, is ignored here: this is the real code).
  *
  * What the driver does per op (one library call each):
- *   S  coap_pdu_init(type, GET (client session) | 2.05 (server-side session), mid) + 2-byte token,
+ *   S  coap_pdu_init(type c|n|o, GET.. (client session) | 2.05.. (server-side session), mid) + 2-byte
+ *      token (o = CON with Observe: 0, context in COAP_BLOCK_USE_LIBCOAP mode),
  *      public coap_send()
  *   A/R  a 4-byte empty ACK / RST datagram through the real receive path (vn_inject_session)
  *   P  a NON 2.05 response carrying the token (separate response -> cancel by token); an optional
@@ -32,6 +33,8 @@
  *      K<secs> at the start of a natural-time case enables keepalive there
  *   H<sid>,<mid>,<newmid>,<newtok>  the nack handler, called for (sid, mid) after a give-up or a Reset,
  *      submits a new CON from inside the callback (items "(" .. a / x bracket what that nested coap_send produced and its result)
+ *   O  (server-side session) the peer registers as an observer of /r;  N  the resource changes:
+ *      the library sends a NON notification (item Wo) - never delayed by NSTART
  *   E  the next socket write fails with ENOBUFS (reported as item E<c|n><mid>.<tok>)
  * "W" mode (natural time): W<ms> advances the virtual clock and lets coap_io_prepare_epoll fire
  * whatever is due.
@@ -46,6 +49,7 @@ static coap_context_t *ctx;
 static coap_session_t *sess[MAXS];
 static int nsess, dead[MAXS], is_server[MAXS];
 static coap_endpoint_t *srv_ep;
+static coap_resource_t *srv_res;
 static coap_address_t peer_addr[MAXS];
 static int recording;
 static char items[1 << 16];
@@ -91,6 +95,8 @@ static void show_dgram_item(int sid, char tag, const uint8_t *data, size_t len) 
     for (unsigned i = 0; i < tkl; i++) tok = (tok << 8) | data[4 + i];
   if (ty == 1 && tok == 0xee01)
     item(sid, "Wm");              /* the (delayed) response to the driver's multicast request */
+  else if (ty == 1 && tok == 0xee02)
+    item(sid, "Wo");              /* response to the peer's Observe registration / a NON notification */
   else if (ty == 0 || ty == 1)
     item(sid, "%c%c%u.%u", tag, ty == 0 ? 'c' : 'n', mid, tok);
   else
@@ -173,11 +179,14 @@ static coap_pdu_t *mk_pdu(int sid, char ty, int a, int b) {
                                               COAP_REQUEST_CODE_PUT};
   static const coap_pdu_code_t rsp_code[3] = {COAP_RESPONSE_CODE_CONTENT, COAP_RESPONSE_CODE_CHANGED,
                                               COAP_RESPONSE_CODE_NOT_FOUND};
-  coap_pdu_t *p = coap_pdu_init(ty == 'c' ? COAP_MESSAGE_CON : COAP_MESSAGE_NON,
+  coap_pdu_t *p = coap_pdu_init(ty != 'n' ? COAP_MESSAGE_CON : COAP_MESSAGE_NON,
                                 is_server[sid] ? rsp_code[a % 3] : req_code[a % 3],
                                 (coap_mid_t)a, 64);
   uint8_t tk[2] = {(uint8_t)(b >> 8), (uint8_t)b};
   coap_add_token(p, 2, tk);
+  /* type o: a CON Observe registration; the context is then in COAP_BLOCK_USE_LIBCOAP mode, so
+   * the request gets a lg_crcv entry inside coap_send() already (also while it is held) */
+  if (ty == 'o' && !is_server[sid]) coap_add_option(p, COAP_OPTION_OBSERVE, 0, NULL);
   if (!is_server[sid] && (a & 2)) coap_add_option(p, COAP_OPTION_URI_PATH, 1, (const uint8_t *)"r");
   if (a & 1) coap_add_data(p, 3, (const uint8_t *)"abc");
   return p;
@@ -222,6 +231,11 @@ static void do_case(void) {
       natural |= vtok[i][0] == 'W';
       if (vtok[i][0] == 'K') ka = atoi(vtok[i] + 1);
     }
+    for (int i = 3 + nsess; i < vntok; i++)
+      if (vtok[i][0] == 'S' && strstr(vtok[i], ",o,")) {
+        coap_context_set_block_mode(ctx, COAP_BLOCK_USE_LIBCOAP);
+        break;
+      }
     if (!natural) coap_context_set_keepalive(ctx, 1);
     else if (ka > 0) coap_context_set_keepalive(ctx, (unsigned)ka);
   }
@@ -243,6 +257,8 @@ static void do_case(void) {
       if (!srv_ep) {
         coap_resource_t *r = coap_resource_init(coap_make_str_const("r"), 0);
         coap_register_request_handler(r, COAP_REQUEST_GET, on_get);
+        coap_resource_set_get_observable(r, 1);      /* NON notifications (flags 0) */
+        srv_res = r;
         coap_add_resource(ctx, r);
         srv_ep = vn_new_server_ep(ctx);
         if (!srv_ep) { puts("ERROR no endpoint"); return; }
@@ -349,6 +365,21 @@ static void do_case(void) {
           s->last_rx_tx = 0;
           vn_prepare(ctx);
           if (s->last_rx_tx == 0) s->last_rx_tx = vn_now;   /* no ping wanted now: not later either */
+        }
+        break;
+      case 'O': {          /* (server-side session) the peer registers as an observer of /r:
+                              NON GET, Observe 0, token ee02 -> NON 2.05 (item Wo) */
+        peer_mid++;
+        uint8_t d[9] = {0x52, 0x01, (uint8_t)(peer_mid >> 8), (uint8_t)peer_mid, 0xee, 0x02,
+                        0x60, 0x51, 'r'};
+        if (is_server[sid] && !dead[sid]) inject(sid, d, 9);
+        break;
+      }
+      case 'N':            /* the application changes /r: coap_resource_notify_observers(), then the
+                              library's own loop sends the notifications (NON, item Wo) */
+        if (is_server[sid] && !dead[sid] && srv_res) {
+          coap_resource_notify_observers(srv_res, NULL);
+          vn_prepare(ctx);
         }
         break;
       case 'M': {          /* a multicast NON GET /r from the session's peer (server-side sessions):
